@@ -142,7 +142,7 @@ def run_property(prop, tier, seed, replay_only=None):
                     return r
                 r = kani.run_harness(
                     crate, os.path.join(root, "t_" + h), h,
-                    int(hspec.get("timeout", 300) * scale), hspec.get("mem", 8) * 2.5,  # address-space limit; declared mem = expected resident size
+                    int(max(1200, hspec.get("timeout", 300)) * scale), hspec.get("mem", 8) * 2.5,  # address-space limit; declared mem = expected resident size
                     os.path.join(logs_dir, h + ".log"),
                     memsafe=(tier == "thorough" and hspec.get("memsafe_thorough", False)),
                     extra=hspec.get("extra"), fs=hspec.get("fs", 4096))
